@@ -245,6 +245,22 @@ class Gen:
             return tb.app("ite", [self.formula(atoms, 0), self.formula(atoms, depth - 1), self.formula(atoms, depth - 1)])
         if op == "not":
             return tb.app("not", [self.formula(atoms, depth - 1)])
+        if r.random() < 0.3:
+            # parallel let over names that already mean something outside: a swap of two declared constants, or the
+            # next-state idiom x := t(x), y := t'(x, y); every bound term is read in the OUTER scope
+            if self.num and not self.dl and len(self.nums) >= 2 and r.random() < 0.5:
+                a, b = r.sample(self.nums, 2)
+                na, nb = tb.rec(a)["nm"], tb.rec(b)["nm"]
+                va = r.choice([b, tb.app("+", [a, self.const(self.num, small=True)])])
+                vb = r.choice([a, tb.app("+", [a, b])])
+                body = tb.app(r.choice(["<=", "<", "="]), [tb.app("-", [a, b]) if r.random() < 0.5 else a, self.const(self.num, small=True)])
+                return tb.let([na, nb], [va, vb], tb.app(r.choice(["and", "or"]), [body, self.formula(atoms, depth - 1)]))
+            if len(self.bools) >= 2:
+                a, b = r.sample(self.bools, 2)
+                na, nb = tb.rec(a)["nm"], tb.rec(b)["nm"]
+                va = r.choice([b, tb.app("not", [a]), self.formula(atoms, 0)])
+                vb = r.choice([a, tb.app("and", [a, b]), tb.app("not", [b])])
+                return tb.let([na, nb], [va, vb], tb.app(r.choice(["and", "or", "=>", "xor"]), [a, tb.app("not", [b]) if r.random() < 0.5 else b]))
         # let: bind a Boolean and, when possible, a numeric subterm
         names, vals = ["l0"], [self.formula(atoms, depth - 1)]
         body_atoms = [tb.var("l0", BOOL)]
@@ -415,6 +431,10 @@ def dlgraph_history(g, rng, queries=(), boolean=True):
         i, j = sorted(rng.sample(range(len(vs)), 2))
         if j - i >= 2:
             add(vs[i], vs[j], rng.choice([5, 10, 7, 3]))
+    if S == INT and rng.random() < 0.12:
+        # weights beyond the 53 bits of a double (the bounds stay exact integers)
+        i = rng.randrange(len(vs) - 1)
+        edges[(vs[i], vs[i + 1])] += 2**53 + rng.randint(0, 3)
     if rng.random() < 0.5:              # a zero-weight cycle
         i = rng.randrange(len(vs) - 1)
         c = edges[(vs[i], vs[i + 1])]
